@@ -36,6 +36,7 @@ const TI = 9
 const (
 	TP0 = 5
 	TP1 = 6
+	TE  = 7 // *myErr: a concrete type implementing error (an ordinary value for the library)
 	TI2 = 8
 )
 
@@ -59,6 +60,8 @@ func typeOf(i int) reflect.Type {
 		return reflect.PtrTo(carrier[0])
 	case TP1:
 		return reflect.PtrTo(carrier[1])
+	case TE:
+		return myErrType
 	}
 	return carrier[i]
 }
@@ -73,6 +76,8 @@ func typeIndex(t reflect.Type) int {
 		return TP0
 	case reflect.PtrTo(carrier[1]):
 		return TP1
+	case myErrType:
+		return TE
 	}
 	for i, c := range carrier {
 		if c == t {
@@ -92,6 +97,8 @@ func typeName(i int) string {
 		return "P0"
 	case TP1:
 		return "P1"
+	case TE:
+		return "E"
 	}
 	return fmt.Sprintf("T%d", i)
 }
@@ -211,6 +218,8 @@ type Scenario struct {
 	// Malformed options interleaved at position Pos of the option list
 	Malformed string `json:"malformed,omitempty"`
 	MalPos    int    `json:"malpos,omitempty"`
+	// BareUnsat: failing UnsatErr converters return a bare *ErrArgumentUnsatisfied
+	BareUnsat bool `json:"bareunsat,omitempty"`
 	// Affinity selects the C07 clause ("input" | "conv")
 	Affinity string `json:"affinity,omitempty"`
 	// ArgOrder permutes the option list (nil = inputs then converters)
